@@ -1,5 +1,6 @@
 import Rfsm.Audit
 import Rfsm.Proofs.ReachLemmas
+import Rfsm.Proofs.TreeLemmas
 /-!
 # C01 — The active configuration is always a legal SCXML state configuration
 
@@ -106,22 +107,61 @@ theorem C01_run (env : Env σ) (d : Doc) (hc : conformantB d = true) (c : Descri
   C01_no_duplicates_no_history env d hc r.1 (run_reach env d c m f dm0 feed r h)
 #assert_axioms C01_run
 
+/-- the parent pointers of a conformant document form a tree: a parent precedes its children in
+    document order, the walk up from every state ends at the root, descent is transitive and
+    asymmetric (all within the fuel the interpreter model walks with) -/
+theorem C01_tree (d : Doc) (hc : conformantB d = true) :
+    TreeLike d ∧
+    (∀ x p q, isDescendant d x p = true → isDescendant d p q = true → isDescendant d x q = true) ∧
+    (∀ x p, isDescendant d x p = true → isDescendant d p x = false) :=
+  ⟨conformant_treeLike hc, fun _ _ _ h1 h2 => isDescendant_trans (conformant_treeLike hc) h1 h2,
+   fun _ _ h => isDescendant_asymm (conformant_treeLike hc) h⟩
+#assert_axioms C01_tree
+
+/-- **exit half of "every active state's parent is active"**: the exit set of a microstep is closed
+    under active descendants — when a state is exited, every active state below it is exited too
+    (any history, configuration and transition set) -/
+theorem C01_exit_descendant_closed (d : Doc) (hc : conformantB d = true) (hv : Table) (cfg ts : List Nat)
+    (p x : Nat) (hp : p ∈ computeExitSet d hv cfg ts) (hx : x ∈ cfg) (hd : isDescendant d x p = true) :
+    x ∈ computeExitSet d hv cfg ts :=
+  computeExitSet_descendant_closed (conformant_treeLike hc) hv cfg ts hp hx hd
+#assert_axioms C01_exit_descendant_closed
+
+/-- … hence among the states that stay active the clause is preserved: a state that is not exited
+    and whose parent was active still has an active parent after the exit phase of the microstep -/
+theorem C01_kept_parent_active (env : Env σ) (d : Doc) (hc : conformantB d = true) (s : Sess σ)
+    (ts : List Nat) (x : Nat) (hx0 : x ≠ 0) (hpar : parentOf d x ≠ 0)
+    (hx : x ∈ (exitStates env d s ts).cfg) (hp : parentOf d x ∈ s.cfg) :
+    parentOf d x ∈ (exitStates env d s ts).cfg := by
+  have he := exitStates_spec env d s ts
+  have hx' := (he.1 x).1 hx
+  exact (he.1 _).2 ⟨hp, kept_parent_kept (conformant_treeLike hc) s.hv s.cfg ts hx'.1 hx0 hx'.2 hpar⟩
+#assert_axioms C01_kept_parent_active
+
 /-- What is proved of `C01_full` (all conformant documents, all reachable sessions, all data
     models): no state is exited while inactive; the root is never exited; the configuration after a
     microstep is exactly (old ∖ exit set) ∪ entry set; a configuration never lists a state twice and
-    never contains a history pseudo-state.
-    **Missing** for `C01_full`: (i) the clauses "every active state's parent is active", "exactly one
-    active child of a compound state / of the root", "all children of an active parallel state are
-    active" of `legalB`, and (ii) "no state is entered while active" (the entry set is disjoint from
-    what remains after the exit) — both need the tree lemmas about `transDomain` / `findLCCA`
-    (everything entered lies below the domain, everything active below the domain was exited) and a
-    legal-state-specification clause for multi-target transitions in `conformantB`.  Until then
-    these clauses are checked on every implementation trace by the oracle (`legalB`, clean-step). -/
+    never contains a history pseudo-state; the exit set is closed under active descendants, so the
+    states that stay active keep an active parent (`C01_exit_descendant_closed`,
+    `C01_kept_parent_active`).
+    **Missing** for `C01_full`: (i) for the *entered* states the clause "every active state's parent
+    is active", and the clauses "exactly one active child of a compound state / of the root", "all
+    children of an active parallel state are active" of `legalB`, and (ii) "no state is entered
+    while active" (the entry set is disjoint from what remains after the exit) — both need a
+    termination measure for the fuel-indexed mutual recursion `addDesc`/`addAnc` (fuel exhaustion
+    would add fewer states) on top of the tree lemmas now available (`C01_tree`), an invariant that
+    recorded history values lie below the history's parent, and a legal-state-specification clause
+    for multi-target transitions in `conformantB`; (ii) is false as stated
+    (`C01_counterexample`).  Until then these clauses are checked on every implementation trace by
+    the oracle (`legalB`, clean-step). -/
 theorem C01_partial (env : Env σ) (d : Doc) (hc : conformantB d = true) :
     (∀ s : Sess σ, Reach env d s → s.cfg.Nodup ∧ ∀ x ∈ s.cfg, isHistoryState d x = false) ∧
-    (∀ (hv : Table) (cfg ts : List Nat), ∀ x ∈ computeExitSet d hv cfg ts, x ∈ cfg) :=
+    (∀ (hv : Table) (cfg ts : List Nat), ∀ x ∈ computeExitSet d hv cfg ts, x ∈ cfg) ∧
+    (∀ (hv : Table) (cfg ts : List Nat) (p x : Nat), p ∈ computeExitSet d hv cfg ts → x ∈ cfg →
+      isDescendant d x p = true → x ∈ computeExitSet d hv cfg ts) :=
   ⟨fun s h => C01_no_duplicates_no_history env d hc s h,
-   fun hv cfg ts => (C01_exit_only_active d hv cfg ts).1⟩
+   fun hv cfg ts => (C01_exit_only_active d hv cfg ts).1,
+   fun hv cfg ts p x hp hx hd => C01_exit_descendant_closed d hc hv cfg ts p x hp hx hd⟩
 #assert_axioms C01_partial
 
 /-! ### Non-vacuity: a conformant document with a parallel state, and a legal configuration of it -/
@@ -148,6 +188,9 @@ example : conformantB exDoc1 = true := by decide
 example : legalB exDoc1 [1, 2, 3, 4, 5, 6] = true := by decide
 example : legalB exDoc1 [1, 2, 3, 4] = false := by decide      -- a parallel child is missing
 example : (computeEntrySet exDoc1 [] [20]).toEnter = [2, 3, 4, 5, 6, 1] := by decide
+-- hypotheses of C01_exit_descendant_closed: transition 10 (4 → 7) exits the parallel 2 and, with it, 6 below it
+example : 2 ∈ computeExitSet exDoc1 [] [1, 2, 3, 4, 5, 6] [10] ∧ isDescendant exDoc1 6 2 = true ∧
+    6 ∈ computeExitSet exDoc1 [] [1, 2, 3, 4, 5, 6] [10] := by decide
 
 end Rfsm.Interp
 
